@@ -300,6 +300,16 @@ def judge(case):
             cr = K.cross([float(x) for x in _comps(N)], fa)
             if K.norm(cr) > 1e-9 * ex_len or K.dot([float(x) for x in _comps(N)], fa) <= 0:
                 mu.fail("numeric:%s-direction" % nm, "%s(v) not along v" % nm)
+        # scaled copies made AFTER the length was asked for must have their own, correct length
+        for kk in (-2, -1, 3, -0.5, 2.5):
+            for W in (A * kk, kk * A):
+                wl = W.length()
+                if abs(wl - abs(kk) * ex_len) > 1e-12 * abs(kk) * ex_len:
+                    mu.fail("numeric:scaled-copy-length", "(v*%r).length() = %r after v.length() = %r" % (kk, wl, L))
+                else:
+                    NW = W.normalized()
+                    if K.dot([float(x) for x in _comps(NW)], [float(x) * kk for x in a]) <= 0:
+                        mu.fail("numeric:scaled-copy-direction", "normalized(v*%r) points against v*%r" % (kk, kk))
         ang = A.angle(B)
         c2 = K.cos2([F(x) for x in a], [F(x) for x in b])
         dotp = sum(F(x) * F(y) for x, y in zip(a, b))
